@@ -64,6 +64,11 @@ def _module_job(job):
 
 def run(tier: str, seed: int, only=None) -> Result:
     res = Result("C14", tier, seed, "translation_validation")
+    if tier != "quick":
+        # eight variants per program: a shorter wall-clock budget per exploration (programs that print values in traces run the
+        # compiler-generated diagnostic printer symbolically and exhaust any budget; they end as undecided either way)
+        import os
+        os.environ.setdefault("VERIF_EXPLORE_DEADLINE", "100")
     depth, width = (2, 3) if tier == "quick" else (3, 3)
     variants = VARIANTS_Q if tier == "quick" else VARIANTS_T
     res.assumptions = [
